@@ -110,7 +110,7 @@ prop("C11",
 prop("C14",
      ["C14_exclusive", "C14_try_succeeds_when_free", "C14_try_fails_when_held", "C14_waits_for_holder", "C14_reporting",
       "C14_no_values_without_guard_ops", "C14_empty_when_idle", "C14_witness", "C14_try_fails_only_if_held_or_awaited", "C14_every_interleaving_refines_the_locked_set"],
-     ["C01.", "C04.", "C12.", "C13.", "C14.", "C05."],
+     ["C01.", "C04.", "C12.", "C13.", "C14.", "C05.", "C03.try_waits"],
      [fam("pool","P",5000), fam("fine-pool","P",2000)],
      [fam("pool","P",150000), fam("fine-pool","P",60000), fam("scale","P",8,"monitor")],
      smoke=True,
@@ -118,13 +118,13 @@ prop("C14",
 prop("C15",
      ["C15_callback_panic_like_error", "C15_panic_reaches_caller", "C15_closure_panic", "C15_values_are_those_committed", "C15_still_consistent", "C15_witness"],
      ["C02.", "C04.", "C12.", "C13.", "C15.", "C08."],
-     [fam("evict","H",2500), fam("evict","L",2500), fam("mix","H",1500), fam("mix","L",1500), fam("fine-evict","L",1500), fam("fine-mix","H",1500), fam("wide-evict","H",600)],
+     [fam("evict","H",2500), fam("evict","L",2500), fam("mix","H",1500), fam("mix","L",1500), fam("fine-evict","L",6000), fam("fine-evict","H",4000), fam("fine-mix","H",1500), fam("wide-evict","H",600)],
      [fam("evict","H",60000), fam("evict","L",60000), fam("mix","H",40000), fam("mix","L",40000), fam("dfs-evict","L",80000), fam("fine-evict","L",40000), fam("fine-evict","H",40000), fam("fine-mix","H",40000), fam("wide-evict","H",20000), fam("wide","L",20000)])
 
 
 prop("C05",
      ["C05_guard_ops_refine_map", "C05_guard_ops_enabled", "C05_lock_free_key", "C05_variants_interchangeable", "C05_try_fails_when_locked", "C05_drop_sole_guard", "C05_lock_drop_absent_restores", "C05_call_refines", "C05_history_refines", "C05_history_deterministic", "C05_witness", "C05_history_witness", "C05_call_refines_inside_callbacks", "C05_limited_call_refines", "C05_callback_failure_refines", "C05_callback_success_refines", "C05_limit_witness", "C05_every_interleaving_refines", "C05_concurrent_histories_linearise", "C05_try_fails_only_if_locked_or_awaited", "C05_try_succeeds_when_free", "C05_linearisation_witness"],
-     ["C02.", "C04.", "C12.", "C05."],
+     ["C02.", "C04.", "C12.", "C05.", "C03.try_waits"],
      [fam("seq","H",3000), fam("seq","L",3000), fam("nocancel","H",1500), fam("nocancel","L",1500), fam("scale","L",2,"monitor"), fam("fine-nolimit","H",2500)],
      [fam("seq","H",100000), fam("seq","L",100000), fam("nocancel","H",40000), fam("nocancel","L",40000), fam("mix","H",20000), fam("fine-nolimit","H",40000), fam("fine-nolimit","L",40000)],
      cosim_obs_is_oracle=True,
@@ -166,7 +166,7 @@ manifest = dict(version=1,
     setup_cmd="./setup.sh",
     hooks=dict(guard="cargo feature verif_hooks", enable="harness/Cargo.toml: lockable = { path = \"/repo\", features = [\"verif_hooks\", \"slow_assertions\"] }",
                baseline_off_cmd="cd /repo && cargo nextest run --workspace --no-fail-fast --tool-config-file pb:/w/lib/nextest.toml --profile pb --test-threads 8 --offline",
-               source_commits=["700e6dc", "32e6044", "64331bd", "02527b8", "47b7773"], add_only=True),
+               source_commits=["700e6dc", "32e6044", "64331bd", "02527b8", "47b7773", "7d0858b"], add_only=True),
     engines=[dict(name="coq-model+cosim", path="/verif/coq, /verif/ocaml, /verif/harness, /verif/check", serves_properties=sorted(P.keys()),
                   kind_free_text="Coq 8.16 model + theorems; extracted OCaml model co-simulated against traces of the real crate produced by a deterministic-scheduler harness")],
     checks=checks,
